@@ -342,12 +342,14 @@ class Writer(BaseValidator):
         assert row_to_write is not None
         assert self._delegated_writer is not None
 
-        if self.location.line >= self._header:
-            self.validate_row(row_to_write)
-        if self.cid.data_format.format == data.FORMAT_FIXED:
+        is_fixed = self.cid.data_format.format == data.FORMAT_FIXED
+        if is_fixed and len(row_to_write) == len(self.cid.field_formats):
+            # Validate what actually ends up in the data so reading them back gives the same result.
             actual_row_to_write = self._padded_fixed_row(row_to_write)
         else:
             actual_row_to_write = row_to_write
+        if self.location.line >= self._header:
+            self.validate_row(actual_row_to_write)
         self._delegated_writer.write_row(actual_row_to_write)
 
     def write_rows(self, rows_to_write):
